@@ -42,6 +42,9 @@ impl<W: HWord> WordWrite for SparseWrite<W> {
     type Word = W;
     #[inline]
     fn write_word(&mut self, word: W) -> Result<(), io::Error> {
+        if std::thread::panicking() {
+            return Ok(());
+        }
         if self.words >= self.limit {
             panic!("{}", crate::backends::BUDGET_MSG);
         }
